@@ -5,6 +5,7 @@ import subprocess
 from engine import guards as G
 from engine import mir, panics, paths
 from . import common as K
+from . import detectors as D
 from .common import A, CERT, POOL, VOTE, fshort
 
 EXPLANATION = (
@@ -265,6 +266,8 @@ def ob_threshold_validation(run, oid):
                 if len(halves) == 2 and cbody is not None:
                     tt = paths.bool_truth_table(cbody, prog)
                     ok = tt is not None and len(tt[0]) == 2 and all(v == (a[0] or a[1]) for a, v in tt[1].items())
+                    if not ok:
+                        ok = _or_of_halves(prog, cbody, halves, st)
                     o.check(bool(ok), "%s::check_threshold|or-once" % st, "both halves are OR-ed inside one filter (each validator counted once)", cbody.span)
                 # the stake summed is the validator's stake from the epoch
                 mp = [t for t in mir.walk(stake) if isinstance(t, tuple) and t and t[0] == "call" and t[1].endswith("Iterator::map")]
@@ -402,6 +405,25 @@ def ob_verify_bytes(run, oid):
             if K.mentions_call(t, "fast_aggregate_verify") and ("BLST_SUCCESS" in mir.show(t)):
                 nb = G.norm_bool(t, True)
                 ok = nb[0] == "eq" and nb[2] is True
+        if not ok:
+            # any other spelling (`matches!(err, BLST_SUCCESS)`, a match): true exactly on the paths where the verify result is BLST_SUCCESS
+            rows = [r for r in paths.decision_table(b, prog) if r[1] is not None]
+            good = bool(rows)
+            saw_true = False
+            for atoms, ret, _bl in rows:
+                is_succ = [a for a in atoms if (a[0] == "variant" and a[1][1] == frozenset(["BLST_SUCCESS"]) and K.mentions_call(a[1][0], "fast_aggregate_verify"))
+                           or (a[0] == "eq" and any(K.mentions_call(x, "fast_aggregate_verify") for x in a[1]) and "BLST_SUCCESS" in " ".join(mir.show(x) for x in a[1]))]
+                v = K.const_eval(ret)
+                if v == 1:
+                    saw_true = True
+                    good = good and any(a[2] is True for a in is_succ)
+                elif v == 0:
+                    good = good and not any(a[2] is True for a in is_succ)
+                else:
+                    nb = G.norm_bool(ret, True)
+                    good = good and nb[0] == "eq" and nb[2] is True and any(K.mentions_call(x, "fast_aggregate_verify") for x in nb[1])
+                    saw_true = saw_true or good
+            ok = good and saw_true
         o.check(ok, "verify_bytes|verdict", "returns err == BLST_SUCCESS", c.span)
     # indexing closure is only reached after the length check
     for fb in prog.family(AGG + "::verify_bytes"):
@@ -436,6 +458,31 @@ REVIEWED_PANICS = {
 }
 
 
+def ob_signature_decoding(run, oid):
+    """the decoder of an individual (vote) signature establishes the invariant that aggregation and aggregate verification rely on"""
+    prog = run.program("lib")
+    o = run.ob(oid, "an individual signature enters the system only through BlstSignature::sig_validate(bytes, true) (subgroup and identity check); the aggregate decoder, whose result is "
+                    "always verified WITH group check, may use from_bytes",
+               "AggregateSignature::new adds individual signatures without checking them again: a point outside the subgroup that passed a cheaper decode still verifies as a single vote "
+               "but poisons every certificate aggregated with it (peers reject it, and the slot never gets a valid one)", floor=2)
+    rd = [b for d, b in prog.bodies.items() if "IndividualSignature as wincode::schema::SchemaRead" in d and d.endswith("::read")]
+    if not rd:
+        o.missing("SchemaRead for IndividualSignature")
+    for b in rd:
+        fam = prog.family(b.defpath)
+        cs = [c for fb in fam for c in fb.calls() if c.name.rsplit("::", 1)[-1] in ("sig_validate", "from_bytes", "uncompress", "deserialize") and "blst" in c.name]
+        ok = len(cs) == 1 and cs[0].name.endswith("sig_validate") and K.const_eval(cs[0].body.operand_term(cs[0].args[1])) == 1
+        o.check(ok, "IndividualSignature::read|sig_validate", "decoded with sig_validate(bytes, true)", b.span, {"calls": [c.name.rsplit("::", 2)[-2:] for c in cs]})
+        if ok:
+            ag = [x for x in b.aggregates(AGGMOD + "IndividualSignature")] if "AGGMOD" in globals() else []
+            rows_ok = all(any(a[0] in ("is_ok", "variant") and K.mentions_call(a[1][0], "sig_validate") for a in G.guard_atoms(b, bb, prog)) for (bb, rv, sp, dst) in ag) if ag else True
+            o.check(rows_ok, "IndividualSignature::read|only-validated", "an IndividualSignature is built only from the validated point", b.span)
+    # the only other way to obtain one is signing (SecretKey::sign)
+    makers = sorted(set(K.root_fn(d) for d, b in prog.bodies.items() if not b.generated for (bb, rv, sp, dst) in b.aggregates(A + "crypto::aggsig::IndividualSignature")))
+    allowed = ("SecretKey::sign", "SchemaRead", "IndividualSignature::")
+    o.check(bool(makers) and all(any(x in m for x in allowed) for m in makers), "IndividualSignature|constructed-in", "constructed only by signing and by the validating decoder", "", {"makers": [fshort(m) for m in makers]})
+
+
 def ob_bitmask_access(run, oid):
     """who looks at the raw storage words of a signer bitmask"""
     prog = run.program("lib")
@@ -463,12 +510,78 @@ def ob_bitmask_access(run, oid):
         o.check(not (names & set(raw)), "AggregateSignature::signers|bounded-api", "signers() enumerates the set bits through the length-bounded API (iter_ones / get / indexing below len)", sb.span, {"calls": sorted(names)[:8]})
 
 
+def _or_of_halves(prog, cb, halves, st):
+    """the membership closure of a two-half certificate, in any spelling: over (half i present, validator is signer of half i) the closure
+    keeps the validator exactly when it is a signer of a present half"""
+    rows = [r for r in paths.decision_table(cb, prog) if r[1] is not None]
+    if not rows:
+        return False
+
+    def which(t):
+        hs = [h for h in halves if K.mentions_field(t, h, st) or K.mentions(t, lambda x: x[0] == "upvar" and h in str(x[1]))]
+        return hs[0] if len(hs) == 1 else None
+
+    def term_val(t, asg):
+        """value of a bool term under asg[(half, 'some'|'sig')]"""
+        t = K.peel(t)
+        if isinstance(t, tuple) and t and t[0] == "const" and t[2] in (0, 1):
+            return bool(t[2])
+        h = which(t) if isinstance(t, tuple) else None
+        if h is None:
+            return None
+        names = [x[1].rsplit("::", 1)[-1] for x in mir.walk(t) if isinstance(x, tuple) and x and x[0] == "call"]
+        closures = [x for x in mir.walk(t) if isinstance(x, tuple) and x and x[0] == "closure"]
+        inner_signer = any(any(c2.name.endswith("is_signer") for c2 in fb.calls()) for x in closures for fb in prog.family(x[1]))
+        if "is_some_and" in names and inner_signer:
+            return asg[(h, "some")] and asg[(h, "sig")]
+        if "is_signer" in names:
+            return asg[(h, "sig")]
+        if names and set(names) <= {"is_some", "as_ref", "deref"} and "is_some" in names:
+            return asg[(h, "some")]
+        return None
+
+    def atom_val(a, asg):
+        if a[0] == "is_some" and isinstance(a[1][0], tuple) and which(a[1][0]) and not K.mentions_call(a[1][0], "is_signer"):
+            return asg[(which(a[1][0]), "some")] == a[2]
+        if a[0] == "bool":
+            v = term_val(a[1][0], asg)
+            return None if v is None else (v == a[2])
+        return None
+    import itertools
+    for vals in itertools.product([False, True], repeat=4):
+        asg = {(halves[0], "some"): vals[0], (halves[0], "sig"): vals[1], (halves[1], "some"): vals[2], (halves[1], "sig"): vals[3]}
+        if (asg[(halves[0], "sig")] and not asg[(halves[0], "some")]) or (asg[(halves[1], "sig")] and not asg[(halves[1], "some")]):
+            continue
+        want = asg[(halves[0], "sig")] or asg[(halves[1], "sig")]
+        got = []
+        for atoms, ret, _bl in rows:
+            hold = True
+            for a in atoms:
+                if D.is_structural_atom(a):
+                    continue
+                v = atom_val(a, asg)
+                if v is None:
+                    return False
+                if not v:
+                    hold = False
+                    break
+            if hold:
+                rv = term_val(ret, asg)
+                if rv is None:
+                    return False
+                got.append(rv)
+        if not got or any(g != want for g in got):
+            return False
+    return True
+
+
 def ob_no_panic(run, oid):
     prog = run.program("lib")
     o = run.ob(oid, "no unreviewed panic site is reachable from ValidatedVote::try_new / ValidatedCert::try_new",
                "every alteration must be rejected with an error, never a panic (a panic in the message loop stops the node)", floor=2)
     roots = [VV + "::try_new", VC + "::try_new"]
-    nb, ns = panics.review(o, prog, roots, REVIEWED_PANICS, fshort, include_overflow=False)
+    from . import panic_review as _PR
+    nb, ns = panics.review(o, prog, roots, REVIEWED_PANICS, fshort, include_overflow=False, auto=_PR.auto)
     run.notes.append("O9.8 examined %d bodies reachable from the two try_new, %d panic sites" % (nb, ns))
     o.ok("closure-size", "%d bodies examined" % nb, "", nontrivial=False)
 
@@ -528,6 +641,10 @@ def check(run):
     ob_verify_bytes(run, "O9.7")
     ob_no_panic(run, "O9.8")
     ob_bitmask_access(run, "O9.12")
+    ob_signature_decoding(run, "O9.13")
+    # "never a panic": validator(i) is reached only with an index that was range-checked (or derived locally)
+    from . import C10 as _C10
+    _C10.ob_validate_then_use(run, "O9.14")
     ob_before_lock(run, "O9.9")
     # "all bitmask lengths ... rejected with an error, never a panic": the decoders every vote and certificate comes through
     # (bounded indices, bounded bitmask, one exact door)
